@@ -77,6 +77,34 @@ Lemma live_upd_sub s w f v : (forall x, livew (f x) = true -> livew x = true) ->
   livew (getw (upd (heap s) w f) v) = true -> livew (getw (heap s) v) = true.
 Proof. intros Hf. rewrite getw_upd. destruct (_ && _); auto. Qed.
 
+Lemma live_app_sub h x v : livew x = false -> livew (getw (h ++ [x]) v) = true -> livew (getw h v) = true.
+Proof.
+  intros Hx. destruct (Nat.lt_trichotomy v (length h)) as [L|[L|L]].
+  - rewrite getw_app_old; auto.
+  - subst v. rewrite getw_app_new. congruence.
+  - rewrite getw_out. discriminate. rewrite app_length. simpl. lia.
+Qed.
+
+(* a step of thread t that leaves heap / registry / wait-group keys alone; covers the Run steps themselves *)
+Lemma rinv_self s s' t p p' :
+  rinv s -> thr s t p -> heap s' = heap s -> reg s' = reg s -> wgmap s' = wgmap s ->
+  threads s' = upd (threads s) t (fun _ => p') ->
+  (forall todo, p' = RW1 todo -> forall v, live s v -> In (ord (heap s) v) todo) ->
+  run_ok (log s') = true -> rinv s'.
+Proof.
+  intros R Ht Hh Hr Hw Hth Hp Hok. constructor; auto.
+  - rewrite Hh, Hr, Hw. apply R.
+  - intros t' todo Ht' v. unfold thr in Ht'. rewrite Hth in Ht'. unfold live, gw. rewrite Hh. apply thr_upd in Ht'.
+    destruct Ht' as [[_ E]|[_ Ht']]. apply Hp; auto. apply (r_rw _ R _ _ Ht').
+Qed.
+
+Lemma remove_nth_in {A} (l : list A) k x y : nth_error l k = Some y -> In x l -> x <> y -> In x (remove_nth k l).
+Proof.
+  revert k; induction l as [|a l IH]; intros [|k] Hk Hin Hn; simpl in *; try discriminate; auto.
+  - inversion Hk; subst. destruct Hin; congruence.
+  - destruct Hin; auto.
+Qed.
+
 Theorem rinv_step s t ch s' : ginv s -> rinv s -> guard_ok s t = true -> step fixed s t ch = Some s' -> rinv s'.
 Proof.
   intros G R GD H. unfold step in H. destruct (crashed s); [discriminate|].
@@ -99,9 +127,170 @@ Proof.
     + rg G R Ht Fin (@nil pc) [EvBW t RStillRunning].
     + rg G R Ht (BW5 n o k) (@nil pc) (@nil event).
       intros m w Hin. left. simpl in Hin. eapply remove_incl; eauto.
-  - (* BW5 *) admit.
-  - (* BW6 *) admit.
-  - admit. - admit. - admit. - admit. - admit. - admit. - admit. - admit. - admit. - admit. - admit. - admit. - admit.
-  - admit. - admit. - admit. - admit. - admit. - admit. - admit. - admit.
+  - (* BW5 *) destruct (cleared s). { inversion H; subst. destruct R; constructor; auto. }
+    cbv zeta in H.
+    assert (LS : forall m : list Z, forall v, livew (getw (heap s ++ [mkW n o k t false false false false]) v) = true ->
+                 livew (getw (heap s) v) = true).
+    { intros _ v. apply live_app_sub. reflexivity. }
+    destruct (mem_z o (wgmap s)) eqn:M; simpl in H; destruct (running s) eqn:Rn; inversion H; subst; clear H.
+    + rg G R Ht (BW6 (length (heap s))) (@nil pc) (@nil event).
+      * intros v Lv. simpl. unfold ord. rewrite getw_app_old; auto.
+      * left. intros v. apply (LS []).
+      * intros m w Hin. simpl in Hin. apply insert_in in Hin. destruct Hin as [E|Hin]; auto. inversion E; subst.
+        right. simpl. unfold ord. rewrite getw_app_new. simpl. exact M.
+    + rg G R Ht Fin (@nil pc) [EvBW t ROk].
+      * intros v Lv. simpl. unfold ord. rewrite getw_app_old; auto.
+      * left. intros v. apply (LS []).
+      * intros m w Hin. simpl in Hin. apply insert_in in Hin. destruct Hin as [E|Hin]; auto. inversion E; subst.
+        right. simpl. unfold ord. rewrite getw_app_new. simpl. exact M.
+    + rg G R Ht (BW6 (length (heap s))) (@nil pc) (@nil event).
+      * intros v Lv. simpl. unfold ord. rewrite getw_app_old; auto.
+      * left. intros v. apply (LS []).
+      * intros m w Hin. simpl in Hin. apply insert_in in Hin. destruct Hin as [E|Hin]; auto. inversion E; subst.
+        right. simpl. unfold ord. rewrite getw_app_new. simpl. rewrite Z.eqb_refl. reflexivity.
+      * left. intros o0 Ho. simpl. rewrite Ho. apply orb_true_r.
+    + rg G R Ht Fin (@nil pc) [EvBW t ROk].
+      * intros v Lv. simpl. unfold ord. rewrite getw_app_old; auto.
+      * left. intros v. apply (LS []).
+      * intros m w Hin. simpl in Hin. apply insert_in in Hin. destruct Hin as [E|Hin]; auto. inversion E; subst.
+        right. simpl. unfold ord. rewrite getw_app_new. simpl. rewrite Z.eqb_refl. reflexivity.
+      * left. intros o0 Ho. simpl. rewrite Ho. apply orb_true_r.
+  - (* BW6 *) inversion H; subst; clear H. simpl in GD. rewrite orb_false_r in GD. apply negb_true_iff in GD.
+    assert (TL : (t < length (threads s))%nat) by (apply nth_error_Some; unfold thr in Ht; congruence).
+    rg G R Ht Fin [WB w] [EvBW t ROk; EvStart w (w_tid (getw (heap s) w)) (w_name (getw (heap s) w)) (w_order (getw (heap s) w))].
+    + simpl. apply upd_app2; auto.
+    + intros q [<-|[]]. reflexivity.
+    + intros v Lv. simpl. apply ord_upd. intros x; simpl; auto.
+    + right. apply no_rw1; auto.
+  - (* ST0 *) destruct (stopped s); inversion H; subst; clear H.
+    + unfold after_start. destruct run. rg G R Ht RW0 (@nil pc) (@nil event). rg G R Ht Fin (@nil pc) (@nil event).
+    + rg G R Ht (ST1 run) (@nil pc) (@nil event).
+  - (* ST1 *) destruct (lock_free s) eqn:L; inversion H; subst; clear H. rg G R Ht (ST2 run) (@nil pc) (@nil event).
+  - (* ST2 *) destruct (stopped s) eqn:S; inversion H; subst; clear H.
+    + unfold after_start. destruct run. rg G R Ht RW0 (@nil pc) (@nil event). rg G R Ht Fin (@nil pc) (@nil event).
+    + rg G R Ht (ST3 run) (@nil pc) (@nil event).
+  - (* ST3 *) destruct (running s) eqn:Rn; inversion H; subst; clear H.
+    + unfold after_start. destruct run. rg G R Ht RW0 (@nil pc) (@nil event). rg G R Ht Fin (@nil pc) (@nil event).
+    + rg G R Ht (ST4 run (map snd (reg s))) (@nil pc) (@nil event).
+  - (* ST4 *) destruct todo as [|w r]; inversion H; subst; clear H.
+    + unfold after_start. destruct run. rg G R Ht RW0 (@nil pc) (@nil event). rg G R Ht Fin (@nil pc) (@nil event).
+    + simpl in GD. rewrite orb_false_r in GD. apply negb_true_iff in GD.
+      assert (TL : (t < length (threads s))%nat) by (apply nth_error_Some; unfold thr in Ht; congruence).
+      rg G R Ht (ST4 run r) [WB w] [EvStart w (w_tid (getw (heap s) w)) (w_name (getw (heap s) w)) (w_order (getw (heap s) w))].
+      * simpl. apply upd_app2; auto.
+      * intros q [<-|[]]. reflexivity.
+      * intros v Lv. simpl. apply ord_upd. intros x; simpl; auto.
+      * right. apply no_rw1; auto.
+  - (* RW0 *) destruct (lock_free s); inversion H; subst; clear H.
+    apply (rinv_self s _ t RW0 (RW1 (wgmap s)) R Ht); try reflexivity; [|apply R].
+    intros todo E v Lv. inversion E; subst. pose proof (g_livereg _ G _ Lv) as Ov. unfold owns in Ov.
+    apply find_some_in in Ov. apply (r_reg _ R) in Ov. unfold mem_z in Ov. apply existsb_exists in Ov.
+    destruct Ov as [x [Hx Ex]]. apply Z.eqb_eq in Ex. subst x. exact Hx.
+  - (* RW1 *) destruct todo as [|z r].
+    + inversion H; subst; clear H.
+      apply (rinv_self s _ t (RW1 []) Fin R Ht); try reflexivity; [intros; discriminate|].
+      simpl. rewrite (r_ok _ R), andb_true_r. apply (all_returned_ok _ G).
+      intros v Sv. apply notlive_done; auto. destruct (livew (gw s v)) eqn:Lv; auto.
+      destruct (r_rw _ R _ _ Ht v Lv).
+    + destruct (nth_error (z :: r) ch) as [o|] eqn:En; [|discriminate].
+      destruct (Nat.eqb (wg_get o (wgcnt s)) 0) eqn:Ez; inversion H; subst; clear H. apply Nat.eqb_eq in Ez.
+      apply (rinv_self s _ t (RW1 (z :: r)) (RW1 (remove_nth ch (z :: r))) R Ht); try reflexivity; [|apply R].
+      intros todo E v Lv. inversion E; subst. eapply remove_nth_in; eauto. apply (r_rw _ R _ _ Ht v Lv).
+      intros Eo. rewrite (g_cnt _ G) in Ez. eapply cnt_zero; eauto. apply live_lt; auto.
+  - (* SD0 *) destruct (once s) eqn:O; inversion H; subst; clear H.
+    + rg G R Ht SD1 (@nil pc) (@nil event).
+    + rg G R Ht Fin (@nil pc) [EvShutRet t].
+  - (* SD1 *) inversion H; subst; clear H. rg G R Ht SD2 (@nil pc) (@nil event).
+  - (* SD2 *) destruct (lock_free s) eqn:L; simpl in H; [|discriminate].
+    destruct (running s); inversion H; subst; clear H.
+    + rg G R Ht SD3 (@nil pc) (@nil event).
+    + rg G R Ht SD10 (@nil pc) (@nil event).
+  - (* SD3 *) destruct (lock_free s); [|discriminate].
+    destruct (map snd (reg s)); inversion H; subst; clear H.
+    + rg G R Ht SD8 (@nil pc) (@nil event).
+    + rg G R Ht (SD4 [] (n :: l) (ord (heap s) n)) (@nil pc) (@nil event).
+  - (* SD4 *) destruct todo as [|w r]; [|destruct (negb (w_flag (getw (heap s) w))); [|destruct (ord (heap s) w <? prev)]];
+      inversion H; subst; clear H.
+    + rg G R Ht (SD7 prev) (@nil pc) (@nil event).
+    + rg G R Ht (SD4 (done ++ [w]) r prev) (@nil pc) [EvCancel w].
+      * intros v Lv. simpl. apply ord_upd. intros x; simpl; auto.
+      * left. intros v. unfold live, gw. simpl. apply live_upd_sub. intros x; auto.
+    + rg G R Ht (SD5 done (w :: r) prev) (@nil pc) (@nil event).
+    + rg G R Ht (SD6 done (w :: r) prev) (@nil pc) (@nil event).
+  - (* SD5 *) destruct todo as [|w r]; [discriminate|].
+    destruct (negb (mem_z prev (wgmap s))); [inversion H; subst; destruct R; constructor; auto|].
+    destruct (Nat.eqb (wg_get prev (wgcnt s)) 0); inversion H; subst; clear H.
+    rg G R Ht (SD6 done (w :: r) (ord (heap s) w)) (@nil pc) (@nil event).
+  - (* SD6 *) destruct todo as [|w r]; inversion H; subst; clear H.
+    rg G R Ht (SD4 (done ++ [w]) r prev) (@nil pc) [EvCancel w].
+    + intros v Lv. simpl. apply ord_upd. intros x; simpl; auto.
+    + left. intros v. unfold live, gw. simpl. apply live_upd_sub. intros x; auto.
+  - (* SD7 *) destruct (negb (mem_z prev (wgmap s))); [inversion H; subst; destruct R; constructor; auto|].
+    destruct (Nat.eqb (wg_get prev (wgcnt s)) 0); inversion H; subst; clear H.
+    rg G R Ht SD8 (@nil pc) (@nil event).
+  - (* SD8 *) inversion H; subst; clear H. rg G R Ht SD9 (@nil pc) (@nil event).
+  - (* SD9 *) destruct (lock_free s); inversion H; subst; clear H. rg G R Ht SD10 (@nil pc) (@nil event).
+    + intros ? ? [].
+    + right. reflexivity.
+  - (* SD10 *) inversion H; subst; clear H. rg G R Ht Fin (@nil pc) [EvShutRet t].
+  - (* WB *) match type of H with (if ?b then _ else _) = _ => destruct b end; inversion H; subst; clear H.
+    rg G R Ht (WC w) (@nil pc) [EvReturn w].
+    + intros v Lv. simpl. apply ord_upd. intros x; simpl; auto.
+    + left. intros v. unfold live, gw. simpl. apply live_upd_sub. intros x. unfold livew. simpl. rewrite andb_false_r. discriminate.
+  - (* WC *) destruct (lock_free s); [|discriminate]. destruct (stopped s); inversion H; subst; clear H.
+    + rg G R Ht (WU w) (@nil pc) (@nil event).
+    + rg G R Ht (WU w) (@nil pc) (@nil event).
+      intros m v Hin. left. simpl in Hin. eapply remove_incl; eauto.
+  - (* WU *) inversion H; subst; clear H. rg G R Ht Fin (@nil pc) (@nil event).
+    + intros v Lv. simpl. apply ord_upd. intros x; simpl; auto.
+    + left. intros v. unfold live, gw. simpl. apply live_upd_sub. intros x; auto.
   - discriminate.
-Admitted.
+Qed.
+
+Lemma rinv_init pool : rinv (init pool).
+Proof.
+  constructor; simpl; auto.
+  intros t todo _ v Lv. exfalso. unfold live in Lv. rewrite gw_init in Lv. discriminate.
+Qed.
+
+Lemma rinv_run sch : forall s, ginv s -> rinv s -> run_guard sch s = true ->
+  ginv (run fixed sch s) /\ rinv (run fixed sch s).
+Proof.
+  induction sch as [|[t ch] sch IH]; simpl; auto. intros s G R H. apply andb_true_iff in H. destruct H as [H1 H2].
+  unfold step_or_skip in *. simpl in *. destruct (step fixed s t ch) eqn:E.
+  - apply IH; auto. eapply ginv_step; eauto. eapply rinv_step; eauto.
+  - apply IH; auto.
+Qed.
+
+(* Run returns only after every started worker has returned, in every schedule in which no worker is started
+   while a Run call is waiting on its snapshot of the wait groups *)
+Theorem run_guarded pool sch : Forall Proofs.entry pool -> run_guard sch (init pool) = true ->
+  run_ok (log (run fixed sch (init pool))) = true.
+Proof.
+  intros Hp Hg. apply r_ok. apply rinv_run; auto. apply ginv_init; auto. apply rinv_init.
+Qed.
+
+Theorem run_guarded_split pool sch : Forall Proofs.entry pool -> run_guard sch (init pool) = true ->
+  forall newer t old, log (run fixed sch (init pool)) = newer ++ EvRunRet t :: old ->
+  forall v c n o, In (EvStart v c n o) old -> returned_in old v = true.
+Proof.
+  intros Hp Hg newer t old E v c n o Hin. pose proof (run_guarded pool sch Hp Hg) as H. rewrite E in H.
+  clear E. induction newer as [|x newer IH]; simpl in H.
+  - apply andb_true_iff in H. destruct H as [H _]. unfold all_returned in H. rewrite forallb_forall in H. apply (H _ Hin).
+  - destruct x; auto. apply andb_true_iff in H. destruct H; auto.
+Qed.
+
+(* the known finding D20b is excluded by the guard (worker b is started while Run holds its snapshot) *)
+Lemma d20b_outside_guard : run_guard Proofs.d20b_sched (init Proofs.d20b_pool) = false.
+Proof. vm_compute. reflexivity. Qed.
+
+(* non-vacuity: Run + a worker that returns on cancel + a shutdown; the guard holds, the worker is cancelled,
+   Run returns after it returned *)
+Definition exr_pool : list pc := [BW0 0 1 KOnCancel; ST0 true; SD0].
+Definition exr_sched : list (nat * nat) :=
+  Proofs.rep 5 0 ++ Proofs.rep 7 1 ++ Proofs.rep 6 2 ++ Proofs.rep 1 3 ++ Proofs.rep 2 1 ++ Proofs.rep 5 2.
+Lemma exr_ok :
+  Forall Proofs.entry exr_pool /\ run_guard exr_sched (init exr_pool) = true /\
+  log (run fixed exr_sched (init exr_pool)) =
+    [EvShutRet 2; EvRunRet 1; EvReturn 0; EvCancel 0; EvStart 0 0 0 1; EvBW 0 ROk; EvBegin 0 0].
+Proof. split; [repeat constructor|]. vm_compute. auto. Qed.
